@@ -5,6 +5,7 @@ import (
 	"bytes"
 	"crypto/sha256"
 	"encoding/json"
+	"errors"
 	"fmt"
 	"os"
 	"os/exec"
@@ -14,6 +15,7 @@ import (
 	"strconv"
 	"strings"
 	"sync"
+	"sync/atomic"
 	"time"
 
 	"verif/pkg/instrument"
@@ -141,6 +143,10 @@ func population(cfg *PropCfg, tier string, seed uint64) []ProgSpec {
 			}
 			s.Consts = kept
 		}
+		if i%3 == 2 {
+			// message fields declared out of index order (same meaning)
+			s.DeclSeed = seed*131 + uint64(i) + 1
+		}
 		id := fmt.Sprintf("p%03d", len(specs))
 		masks := map[int]bool{}
 		var ms []int
@@ -242,10 +248,16 @@ func runShards(w *Work, node string, batch *proto.Batch, out *Outcome, timeout t
 	}
 	wg.Wait()
 	for s := range res {
+		if res[s].err == errWatchdog {
+			return fmt.Errorf("shard %d (in run %d): %v", s, res[s].cur, res[s].err)
+		}
 		if res[s].err != nil {
 			// a worker died: re-run the case in flight alone to see whether the code under test kills the process
 			if res[s].cur >= 0 {
 				_, stderr2, err2 := runNode(node, []string{"-batch", batchFile, "-from", strconv.Itoa(res[s].cur), "-to", strconv.Itoa(res[s].cur + 1)}, timeout)
+				if err2 == errWatchdog {
+					return fmt.Errorf("shard %d: run %d alone: %v", s, res[s].cur, err2)
+				}
 				if err2 != nil {
 					rp := &proto.Replay{Format: "verif-replay/1", Property: batch.Property, Seed: batch.Seed, Run: res[s].cur, Params: batch.Params,
 						Scenario:  proto.Scenario{Kind: "rerun"},
@@ -336,7 +348,8 @@ func runNode(node string, args []string, timeout time.Duration) ([]proto.Report,
 	if err := cmd.Start(); err != nil {
 		return nil, "", err
 	}
-	timer := time.AfterFunc(timeout, func() { cmd.Process.Kill() })
+	var timedOut atomic.Bool
+	timer := time.AfterFunc(timeout, func() { timedOut.Store(true); cmd.Process.Kill() })
 	defer timer.Stop()
 	var reports []proto.Report
 	sc := bufio.NewScanner(stdout)
@@ -348,8 +361,15 @@ func runNode(node string, args []string, timeout time.Duration) ([]proto.Report,
 		}
 	}
 	err = cmd.Wait()
+	if timedOut.Load() {
+		// the coordinator's own watchdog, not the code under test: hangs of the code under
+		// test are decided by the deterministic step budget inside the node
+		return reports, stderr.String(), errWatchdog
+	}
 	return reports, stderr.String(), err
 }
+
+var errWatchdog = errors.New("watchdog: the simulation node exceeded its wall-clock limit and was stopped")
 
 // Finish matches known findings, writes replays and evidence, prints the verdict lines
 // and returns the exit code.
